@@ -18,6 +18,7 @@ RULE = ("seeded random expression trees (sums, scalar multiples, dot, cross, mix
         "assignments and forward-mode dual numbers on the tree as reference. A case is non-trivial when its tree contains at "
         "least one product node (dot/cross/mixed/norm) and its reference value is non-zero at some assignment; distinct = "
         "distinct (tree, id-rank permutation, mode).")
+RULE = RULE + ' Also: vector functions of a rescaled parameter w(k t) (what the library returns must be the derivative; NotImplementedError is inconclusive).'
 ASSUMPTIONS = ["the R^3 coordinate formulas in vf/vecsem.py define the meaning of dot/cross/mixed/norm",
                "assignments are random reals in [-2,2] (scalars bounded away from 0); agreement at 3 points of a polynomial/"
                "algebraic identity is taken as agreement (Schwartz-Zippel)"]
